@@ -73,6 +73,8 @@ pub fn stub_write_at(f: &TableFile, buf: &[u8], offset: u64) -> Result<()> {
 
 pub fn stub_flush(f: &TableFile) -> Result<()> {
 	event(2, fno(f) as u8);
+	crate::log::verif_kani::fev(8, fno(f) as i32);
+	crate::log::verif_kani::race_hook();
 	Ok(())
 }
 
